@@ -1038,7 +1038,7 @@ def r7_8(ctx):
     prog = ctx.prog
     n_loops = 0
     for f in prog.fns():
-        if f.tu.name not in COMPILE_TUS and not ctx.fixture:
+        if f.tu.name.replace('.committed', '') not in COMPILE_TUS and not ctx.fixture:
             continue
         k = 0
         for n in f.all_nodes():
